@@ -30,49 +30,71 @@ theorem chunks_nonempty (k : Nat) (bs : Bytes) : ∀ c ∈ chunks k bs, c ≠ []
   | nil => simp [bytesOf]
   | cons c cs ih => simp [bytesOf, ih]
 
-/-- The write log of a relay loop: what each event makes it write. -/
+/-- The write log of a relay loop: what each event makes it write, up to and including the event
+that ends it. -/
 def writesOf (l : Loop) : List Ev → List Bytes
   | [] => []
-  | .data bs :: es => chunks (l.pred bs.length) bs ++ writesOf l es
-  | .eof :: _ => []
+  | e :: es =>
+    let ws := chunks (l.pred e.accepted.length) e.accepted
+    match e.ending with
+    | none => ws ++ writesOf l es
+    | some _ => ws
 
 theorem writesOf_flatten (l : Loop) (evs : List Ev) : (writesOf l evs).flatten = sentBy evs := by
   induction evs with
   | nil => simp [writesOf, sentBy]
-  | cons e es ih => cases e <;> simp [writesOf, sentBy, chunks_flatten, ih]
+  | cons e es ih =>
+    cases h : e.ending <;> simp [writesOf, sentBy, h, chunks_flatten, ih]
+
+theorem writesOf_nonempty (l : Loop) (evs : List Ev) : ∀ c ∈ writesOf l evs, c ≠ [] := by
+  induction evs with
+  | nil => simp [writesOf]
+  | cons e es ih =>
+    intro c hc
+    cases h : e.ending with
+    | none =>
+      simp [writesOf, h] at hc
+      rcases hc with hc | hc
+      · exact chunks_nonempty _ _ c hc
+      · exact ih c hc
+    | some r =>
+      simp [writesOf, h] at hc
+      exact chunks_nonempty _ _ c hc
 
 theorem runFrom_finished (l : Loop) (p : Pump) (h : p.finished = true) (evs : List Ev) :
     Pump.runFrom l p evs = (p, []) := by
   induction evs with
   | nil => simp [Pump.runFrom]
-  | cons e es ih => cases e <;> simp [Pump.runFrom, Pump.step, h, ih]
+  | cons e es ih => simp [Pump.runFrom, Pump.step, h, ih]
 
 def closeActs : Bool → List Act
   | true => [.closeWrite]
   | false => []
 
-def optWrite : Bytes → List Act
-  | [] => []
-  | b :: bs => [.write (b :: bs)]
+theorem closes_cons (e : Ev) (es : List Ev) :
+    closes (e :: es) = (e.ending.isSome || closes es) := by
+  cases h : e.ending <;> simp [closes, endOf, h]
 
-/-- Shape of everything a running pump does: the writes, then — iff the source finished — one `closeWrite`. -/
-theorem runFrom_shape (l : Loop) (p : Pump) (h : p.finished = false) (evs : List Ev) :
-    Pump.runFrom l p evs =
-      ({ p with finished := closes evs }, (writesOf l evs).map .write ++ closeActs (closes evs)) := by
+/-- Shape of everything a running pump does: the writes, then — iff something ended the copy,
+whatever it was — one `closeWrite`; and the pump records that reason. -/
+theorem runFrom_shape (l : Loop) (held : Bytes) (evs : List Ev) :
+    Pump.runFrom l ⟨held, none⟩ evs =
+      (⟨held, endOf evs⟩, (writesOf l evs).map .write ++ closeActs (closes evs)) := by
   induction evs with
-  | nil => cases p; simp_all [Pump.runFrom, closes, writesOf, closeActs]
+  | nil => simp [Pump.runFrom, closes, endOf, writesOf, closeActs]
   | cons e es ih =>
-    cases e with
-    | data bs => simp [Pump.runFrom, Pump.step, h, ih, closes, writesOf]
-    | eof =>
-      simp only [Pump.runFrom, Pump.step, h, closes, writesOf]
-      rw [runFrom_finished l _ rfl]
+    cases h : e.ending with
+    | none =>
+      simp [Pump.runFrom, Pump.step, Pump.finished, h, ih, closes, endOf, writesOf]
+    | some r =>
+      simp only [Pump.runFrom, Pump.step, Pump.finished, h, closes, endOf, writesOf, Option.isSome]
+      rw [runFrom_finished l _ (by simp [Pump.finished])]
       simp [closeActs]
 
 theorem run_shape (l : Loop) (early : Bytes) (evs : List Ev) :
-    Pump.run l ⟨early, false⟩ evs =
-      (⟨[], closes evs⟩, optWrite early ++ ((writesOf l evs).map .write ++ closeActs (closes evs))) := by
-  unfold Pump.run Pump.start
+    Pump.run l (.fresh early) evs =
+      (⟨[], endOf evs⟩, optWrite early ++ ((writesOf l evs).map .write ++ closeActs (closes evs))) := by
+  unfold Pump.run Pump.start Pump.fresh
   cases early with
   | nil => simp [runFrom_shape, optWrite]
   | cons b bs => simp [runFrom_shape, optWrite]
@@ -83,24 +105,99 @@ theorem run_shape (l : Loop) (early : Bytes) (evs : List Ev) :
 @[simp] theorem bytesOf_closeActs (c : Bool) : bytesOf (closeActs c) = [] := by
   cases c <;> simp [bytesOf, closeActs]
 
+@[simp] theorem bytesOf_releaseActs (r : Bool) (k : CloseKind) : bytesOf (releaseActs r k) = [] := by
+  cases r <;> simp [bytesOf, releaseActs]
+
 theorem run_bytes (l : Loop) (early : Bytes) (evs : List Ev) :
-    bytesOf (Pump.run l ⟨early, false⟩ evs).2 = early ++ sentBy evs := by
+    bytesOf (Pump.run l (.fresh early) evs).2 = early ++ sentBy evs := by
   simp [run_shape, writesOf_flatten]
+
+theorem run_finished (l : Loop) (early : Bytes) (evs : List Ev) :
+    (Pump.run l (.fresh early) evs).1.finished = closes evs := by
+  simp [run_shape, Pump.finished, closes]
 
 theorem sentBy_append_of_open (a b : List Ev) (h : closes a = false) :
     sentBy (a ++ b) = sentBy a ++ sentBy b := by
   induction a with
   | nil => simp [sentBy]
-  | cons e es ih => cases e <;> simp_all [sentBy, closes]
+  | cons e es ih =>
+    cases he : e.ending with
+    | none => simp_all [sentBy, closes_cons]
+    | some r => simp [closes_cons, he] at h
 
 theorem sentBy_append_of_closed (a b : List Ev) (h : closes a = true) : sentBy (a ++ b) = sentBy a := by
   induction a with
-  | nil => simp [closes] at h
-  | cons e es ih => cases e <;> simp_all [sentBy, closes]
+  | nil => simp [closes, endOf] at h
+  | cons e es ih =>
+    cases he : e.ending with
+    | none => simp_all [sentBy, closes_cons]
+    | some r => simp [sentBy, he]
 
-theorem mem_eof_iff_closes (evs : List Ev) : Ev.eof ∈ evs ↔ closes evs = true := by
+theorem endOf_append_of_closed (a b : List Ev) (h : closes a = true) : endOf (a ++ b) = endOf a := by
+  induction a with
+  | nil => simp [closes, endOf] at h
+  | cons e es ih =>
+    cases he : e.ending with
+    | none => simp_all [endOf, closes_cons]
+    | some r => simp [endOf, he]
+
+/-- A pump has ended iff one of its events was an ending one (EOF, read error, write error). -/
+theorem closes_iff_exists_ending (evs : List Ev) :
+    closes evs = true ↔ ∃ e ∈ evs, e.ending.isSome = true := by
   induction evs with
-  | nil => simp [closes]
-  | cons e es ih => cases e <;> simp_all [closes]
+  | nil => simp [closes, endOf]
+  | cons e es ih => simp [closes_cons, ih]
+
+theorem mem_eof_closes (evs : List Ev) (h : Ev.eof ∈ evs) : closes evs = true :=
+  (closes_iff_exists_ending evs).2 ⟨.eof, h, rfl⟩
+
+theorem mem_rerr_closes (evs : List Ev) (h : Ev.rerr ∈ evs) : closes evs = true :=
+  (closes_iff_exists_ending evs).2 ⟨.rerr, h, rfl⟩
+
+/-- If only data and EOF events occur (no broken connection) the pump ends iff the side finished. -/
+theorem closes_iff_mem_eof_of_clean (evs : List Ev)
+    (hc : ∀ e ∈ evs, e.ending = none ∨ e = .eof) : closes evs = true ↔ Ev.eof ∈ evs := by
+  constructor
+  · intro h
+    obtain ⟨e, he, hs⟩ := (closes_iff_exists_ending evs).1 h
+    rcases hc e he with h0 | h0
+    · simp [h0] at hs
+    · exact h0 ▸ he
+  · exact mem_eof_closes evs
+
+@[simp] theorem finalClose_append_writes (ws : List Bytes) (as : List Act) :
+    finalClose (ws.map Act.write ++ as) = finalClose as := by
+  induction ws with
+  | nil => simp
+  | cons w ws ih => simp [finalClose, ih]
+
+@[simp] theorem finalClose_optWrite (b : Bytes) (as : List Act) :
+    finalClose (optWrite b ++ as) = finalClose as := by
+  cases b <;> simp [optWrite, finalClose]
+
+@[simp] theorem finalClose_closeActs (c : Bool) (as : List Act) :
+    finalClose (closeActs c ++ as) = finalClose as := by
+  cases c <;> simp [closeActs, finalClose]
+
+@[simp] theorem finalClose_releaseActs (r : Bool) (k : CloseKind) :
+    finalClose (releaseActs r k) = if r then some k else none := by
+  cases r <;> simp [releaseActs, finalClose]
+
+@[simp] theorem eofSeen_append (a b : List Act) : eofSeen (a ++ b) = (eofSeen a || eofSeen b) := by
+  simp [eofSeen]
+
+@[simp] theorem eofSeen_writes (ws : List Bytes) : eofSeen (ws.map Act.write) = false := by
+  induction ws with
+  | nil => simp [eofSeen]
+  | cons w ws ih => simp_all [eofSeen]
+
+@[simp] theorem eofSeen_optWrite (b : Bytes) : eofSeen (optWrite b) = false := by
+  cases b <;> simp [optWrite, eofSeen]
+
+@[simp] theorem eofSeen_closeActs (c : Bool) : eofSeen (closeActs c) = c := by
+  cases c <;> simp [closeActs, eofSeen]
+
+@[simp] theorem eofSeen_releaseActs (r : Bool) (k : CloseKind) : eofSeen (releaseActs r k) = false := by
+  cases r <;> simp [releaseActs, eofSeen]
 
 end Martian.Tunnel
